@@ -29,6 +29,7 @@ RULE += (' Also: class sources have value semantics (all equal, unhashable); asy
 RULE += (' Also: a source whose aclose appears only once iteration has begun; tee children closed in reverse order.')
 RULE += (' Also: tee sources failing once at their k-th use (the fetching child ends; the last child to go closes the source).')
 RULE += (' Also: iterators drawn from async iterables are owned by the tool that drew them.')
+RULE += (' Also: end-of-iteration exceptions raised by user callables or thrown in by the consumer.')
 ASSUMPTIONS = ["sources' own aclose never suspends or fails", "sync iterables have nothing to release",
                "a generator-based tool closed before its first step runs no code (language semantics): sources need "
                "not be closed then, except for handles that advertise eager closing (chain, tee, groupby)"]
@@ -192,9 +193,12 @@ def run_iter(case, stats):
         judge(side, ("close", j), j >= 1)
     # consumer exception thrown in at every position (generator based tools only expose athrow)
     for j in range(1, min(nout, 5) + 1):
-        exc = FAULT_TYPES[case["exc"]]("thrown by consumer")
+        # (every third position it is an end-of-iteration exception that the consumer throws in, or - below - that a
+        # user callable raises: whatever the generator protocol turns it into, the tool has ended and lets go of its inputs)
+        exc = (StopAsyncIteration if j % 3 == 0 else FAULT_TYPES[case["exc"]])("thrown by consumer")
         side = run_async_side(spec, flavours=flav, fn_flavours=fnfl, log=False, outer_flavour=outer, steps=j, athrow=exc)
-        if side.term and side.term[0] == "athrow":
+        if side.term and side.term[0] == "athrow" and side.term[1] != "yielded":
+            # (a tool that answers the thrown exception with another item has not ended: nothing to judge yet)
             judge(side, ("athrow", j), True)
     # faults at every use of every probe
     probes = [("src", s, st.uses) for s, st in enumerate(full.srcs) if st.sid != "outer"]
@@ -202,10 +206,14 @@ def run_iter(case, stats):
     probes += [("fn", i, fs.uses) for i, fs in enumerate(full.fns) if fs is not None]
     for kind, index, uses in probes:
         for k in range(1, uses + 1):
-            exc = FAULT_TYPES[case["exc"]]("injected")
+            stop_like = kind == "fn" and k % 3 == 0
+            exc = (StopAsyncIteration if stop_like else FAULT_TYPES[case["exc"]])("injected")
             side = run_async_side(spec, flavours=flav, fn_flavours=fnfl, log=False, outer_flavour=outer,
                                   fault=Fault(kind, index, k, exc, "await"), steps=spec.get("steps"))
-            if len(side.term) == 3 and side.term[0] == "raise" and side.term[2]:
+            probe = side.fns[index] if kind == "fn" else None
+            if len(side.term) == 3 and side.term[0] == "raise" and (side.term[2] or (stop_like and probe is not None and probe.faulted)):
+                if stop_like:
+                    stats["callable_raised_stopasynciteration"] += 1
                 judge(side, ("fault", kind, index, k), True)
     stats[f"specs_{tool}"] += 1
     return {"violations": viols, "evals": max(1, evals), "sigs": sigs}
